@@ -1,0 +1,48 @@
+//go:build verif
+
+package hotreload
+
+// Contracts for govc (contract-based deductive verification). Comment-only: this file
+// contributes no declarations and is compiled only with -tags verif.
+
+// ---- library reload manager (C19) ------------------------------------------------------
+// The server is reloaded only with bytecode from a successful compilation of this change set;
+// state is restored only after a successful reload; every handled change set is counted.
+//@ spec func compiledOK(b []byte) bool
+//@ ghost nreload() int
+//@ func (hotreload.CompilerInterface).CompileFile
+//@   trusted
+//@   modifies nothing
+//@   ensures err == nil ==> compiledOK(result)
+//@ func (hotreload.ServerInterface).Reload
+//@   trusted
+//@   modifies ghost(nreload)
+//@   ensures nreload() == old(nreload()) + 1
+//@ func (hotreload.ServerInterface).GetState
+//@   trusted
+//@   modifies nothing
+//@ func (hotreload.ServerInterface).SetState
+//@   trusted
+//@   modifies nothing
+
+//@ monitor ReloadManager.mu guards reloadCount, lastReload
+
+//@ func (*ReloadManager).handleError
+//@   requires rm != nil
+//@   dyncall modifies nothing
+//@   modifies nothing
+//@ func (*ReloadManager).notifyReload
+//@   requires rm != nil
+//@   dyncall modifies nothing
+//@   modifies nothing
+
+//@ func (*ReloadManager).handleChanges
+//@   mathint
+//@   requires rm != nil
+//@   strict
+//@   callpre (hotreload.ServerInterface).Reload compiledOK(arg1) && nreload() == old(nreload())
+//@   callpre (hotreload.ServerInterface).SetState nreload() == old(nreload()) + 1
+//@   ensures rm.reloadCount == atlock(rm.reloadCount) + 1
+//@   ensures nreload() == old(nreload()) || nreload() == old(nreload()) + 1
+//@   loop 1 invariant rm.reloadCount == atlock(rm.reloadCount) + 1 && heldw(addr(rm.mu)) && nreload() == old(nreload())
+//@   loop 2 invariant rm.reloadCount == atlock(rm.reloadCount) + 1 && heldw(addr(rm.mu)) && nreload() == old(nreload())
